@@ -842,6 +842,29 @@ func c06Corpus(g *G) {
 		}
 		g.c06Emit("corpus-sizes-"+c06VcName[vc], s.evs, true, true)
 	}
+	// --- PES_packet_length boundary: the elementary stream of a frame (AUD + start code + NAL) walking across 65527..65536,
+	// with and without a composition offset (PTS+DTS header is 5 bytes longer)
+	for _, vc := range []int{c06Avc, c06Hevc} {
+		s := &c06Scn{r: r, vc: vc, ac: c06NoAudio}
+		s.videoSeqHeader(0)
+		hevc := vc != c06Avc
+		kt, pt, aud := 5, 1, 6
+		if hevc {
+			kt, pt, aud = 19, 1, 7
+		}
+		s.v(0, c06VideoPayload(vc, true, 0, [][]byte{c06Nal(r, hevc, kt, 50)}, false))
+		i := 1
+		for es := 65520; es <= 65537; es++ {
+			n := es - aud - 3 // AUD, then a 3-byte start code in front of the only NAL unit
+			cts := 0
+			if es%2 == 1 {
+				cts = 40
+			}
+			s.v(i*40, c06VideoPayload(vc, false, cts, [][]byte{c06Nal(r, hevc, pt, n)}, false))
+			i++
+		}
+		g.c06Emit("corpus-pes-length-"+c06VcName[vc], s.evs, false, true)
+	}
 	// --- malformed streams (no claim: correspondence only). Truncated / mutated frames; the remuxers must agree with the
 	// model on what they drop. Payloads stay long enough for the unguarded header reads (C05's subject).
 	for i := 0; i < g.scale(40, 400); i++ {
